@@ -11,7 +11,11 @@ import (
 // unrelated trees, different heights, empty versions), reloads each from its root and applies
 // `op` to ordered pairs of the reloaded, unmodified trees.
 func genVersionsCase(r *rand.Rand, cfg Cfg, op string, big bool) Case {
-	cfg = noCache(cfg)
+	if op != "difflinks" || r.Intn(2) == 0 {
+		// (read counts need a store without cache; node diffs also run through a shared cache: the
+		// versions are then reloaded, modified and persisted through the cache they are diffed through)
+		cfg = noCache(cfg)
+	}
 	us := 4 + r.Intn(70)
 	if big {
 		us = 150 + r.Intn(250)
@@ -50,10 +54,15 @@ func genVersionsCase(r *rand.Rand, cfg Cfg, op string, big bool) Case {
 	mutate(first + 1)
 	ops = append(ops, fmt.Sprintf("root 0 %d", nroot))
 	nroot++
+	if cfg.Cache != "none" && r.Intn(2) == 0 {
+		// go on in "another process": a cold cache, the version reloaded through it (its nodes now
+		// enter the cache decoded from the store) and modified from there
+		ops = append(ops, "coldcache", fmt.Sprintf("load %d 0", nroot-1))
+	}
 	nv := 1 + r.Intn(4)
 	for v := 0; v < nv; v++ {
 		switch {
-		case r.Intn(6) == 0 && !big: // unrelated / sibling: restart from an earlier root or from scratch
+		case (r.Intn(6) == 0 || (cfg.Cache != "none" && r.Intn(2) == 0)) && !big: // unrelated / sibling: restart from an earlier root or from scratch
 			if r.Intn(2) == 0 {
 				ops = append(ops, "new 0")
 				live = map[uint64]uint64{}
